@@ -83,7 +83,7 @@ def random_step(rng, profile, allow_repack=True):
     elif name == 'addpack':
         noholes = rng.random() < (0.6 if profile == 'C09' else 0.35)
         step.update(keys=_keys(rng, 4, pool), z=rng.random() < 0.4, noholes=noholes,
-                    twice=rng.random() < 0.5, via=rng.choice(['bytes', 'streams', 'lazy', 'single']))
+                    twice=rng.random() < 0.5, via=rng.choice(['bytes', 'streams', 'lazy', 'single', 'chain']))
         if step['via'] == 'single':
             step['keys'] = step['keys'][:1]
     elif name == 'pack':
@@ -261,7 +261,16 @@ class Runner:
             if name == 'addpack':
                 kwargs = {'compress': step['z'], 'no_holes': step['noholes'], 'no_holes_read_twice': step['twice']}
                 via = step['via']
-                if via == 'bytes':
+                if via == 'chain':
+                    # several calls with do_commit=False, then the manual commit the docstring asks for
+                    res = []
+                    keys = step['keys']
+                    cut = max(1, len(keys) // 2)
+                    for part in (keys[:cut], keys[cut:]):
+                        if part:
+                            res += cont.add_objects_to_pack([data(k) for k in part], do_commit=False, **kwargs)
+                    cont._get_operation_session().commit()  # pylint: disable=protected-access
+                elif via == 'bytes':
                     res = cont.add_objects_to_pack([data(k) for k in step['keys']], **kwargs)
                 elif via == 'streams':
                     res = cont.add_streamed_objects_to_pack([io.BytesIO(data(k)) for k in step['keys']], **kwargs)
